@@ -70,7 +70,8 @@ def generate(rng, tier, cls):
 
         kind = rng.weighted([(12, 'sim'), (2, 'bytesio'), (6, 'buffered'),
                              (1, 'minimal'), (1, 'gzip'), (1, 'mmap'),
-                             (1, 'spooled'), (1, 'file'), (1, 'gzipfile')])
+                             (1, 'spooled'), (1, 'file'), (1, 'gzipfile'), (1, 'rawfile'),
+                                         (1, 'fdfile')])
         c = [pad, bs, kind,
              rng.choice([1, 2, 5, 64, 97, 8192]) if kind == 'buffered'
              else None,
